@@ -1,0 +1,8 @@
+//go:build !verif
+
+// Package verifhook marks points where the verification harness may perturb the schedule.
+// Without the "verif" build tag every function is an empty stub that the compiler inlines away.
+package verifhook
+
+// Yield marks a schedule point (a lock was just released, a shared reference is about to be re-read).
+func Yield(site string) {}
